@@ -74,9 +74,9 @@ CLONE_TABLE = {
     "_offsets": COPY, "_param_vals": COPY, "_state_der": COPY, "_scale_der": COPY, "_alg": COPY, "_state_next": COPY,
     "_constraints": COPY, "_initial": COPY, "_objective": COPY, "_method": COPY, "_placeholders": COPY,
     "_T": COPY, "_t0": COPY,
-    "_meta": (ALIAS, "symbol metadata: the clone reuses the template's symbols"),
-    "_scale": (ALIAS, "per-symbol scales: the clone reuses the template's symbols"),
-    "_catalog": (ALIAS, "per-symbol catalogue: the clone reuses the template's symbols"),
+    # per-symbol tables: the clone reuses the template's symbols, but the TABLES are per-stage mutable state (a symbol declared
+    # on one clone must not become known to the template and its siblings)
+    "_meta": COPY, "_scale": COPY, "_catalog": COPY,
     "_var_original": (ALIAS, "link to the original tree (None for declared stages)"),
     "_T_scale": (ALIAS, "immutable number"),
 }
@@ -88,7 +88,7 @@ CLONE_EXEMPT = {
     "_signals": "B-spline signals of a template are not cloned: using one raises KeyError at transcription (loud)",
     "_inf_inert": "inf_inert symbols of a template are not cloned: an unsubstituted symbol fails loudly in Opti",
     "_inf_der": "inf_der symbols of a template are not cloned: an unsubstituted symbol fails loudly in Opti",
-    "_stages": "templates are cloned without their sub-stages (not supported)",
+    "_stages": "a template with sub-stages is rejected by clone() (obligation 'clone handles the template's sub-stages' below)",
 }
 
 
@@ -147,6 +147,17 @@ def r12_2(ctx):
         sc = ctx.scope(f)
         ok = len(w) == 1 and [(ast.unparse(t), p) for t, p in sc.guards(w[0].node)] == [("'%s' not in kwargs" % kw, True)]
         ctx.check(ok, "clone keeps the template's %s unless overridden" % kw, detail="override of %s ignored or template value lost" % kw, expected="if '%s' not in kwargs: ret.%s = copy(self.%s)" % (kw, a, a), found="", fi=f)
+    # sub-stages of a template: cloned recursively, or the template is rejected -- never dropped silently
+    handles_stages = "_stages" in ws or any(isinstance(n_, (ast.If, ast.Assert)) and "self._stages" in ast.unparse(n_.test) and (isinstance(n_, ast.Assert) or any(isinstance(x, ast.Raise) for x in n_.body))
+                                             for n_ in walk_no_nested(f.node))
+    ctx.check(handles_stages, "clone handles the template's sub-stages", detail="a template that owns sub-stages is cloned without them (half of the problem silently missing)",
+              expected="clone the sub-stages recursively, or raise when self._stages is not empty", found="self._stages never read", fi=f)
+    # shifted operands (next/prev/offset) keep their own table of inner expressions: those need the clone's placeholders too
+    offs = [w for w in ws.get("_offsets", [])]
+    sub_off = any(is_call_to(x, "substitute") and [ast.unparse(a) for a in x.args[1:]] == ["subst_from", "subst_to"] and "_offsets" in ast.unparse(ctx.scope(f).stmt_of(x)) + " ".join(ast.unparse(l[1]) for l in ctx.scope(f).enclosing_loops(x))
+                  for x in walk_no_nested(f.node))
+    ctx.check(bool(offs) and sub_off, "clone renews the placeholders inside next/prev/offset operands", detail="next(x*T) of a clone with an overridden T keeps the template's T (and t, t0, nested placeholders)",
+              expected="the expressions stored in _offsets pass through substitute(.., subst_from, subst_to)", found="; ".join(ast.unparse(w.node)[:70] for w in offs), fi=f)
     ctor = [c for c in walk_no_nested(f.node) if isinstance(c, ast.Call) and ast.unparse(c.func) == "Stage"]
     ok = len(ctor) == 1 and ast.unparse(ctor[0].args[0]) == f.params[1] and any(k.arg is None for k in ctor[0].keywords)
     ctx.check(ok, "clone constructs the new stage under the given parent with the overrides", detail="constructor call", expected="Stage(parent, **kwargs)", found="; ".join(ast.unparse(c) for c in ctor), fi=f)
